@@ -67,7 +67,8 @@ def gen_case(run_seed, tier):
     ne = sz.randint(1, 2)
     progs = []
     for _ in range(sz.randint(1, 2)):
-        progs.append(gen_program(wl, ne, np_, 1, sz.randint(2, 12), allow_ins=False, kinds_w=[40, 20, 25, 10, 5], hbias=0.35))
+        progs.append(gen_program(wl, ne, np_, 1, sz.randint(2, 12), allow_ins=False, kinds_w=[40, 20, 25, 10, 5], hbias=0.35,
+                                 emitter_control_only=sz.random() < 0.7))  # Monte-Carlo noise maps only know e, p, ee, ep
     tg, fam = graphs.random_graph(sz, np_, np_, connected=False, allow_isolated=False) if np_ >= 2 else ((1, []), "single")
     if np_ >= 2 and graphs.isolated(tg):
         tg = graphs.path(np_)
@@ -452,6 +453,9 @@ def run_case(case):
                     if C["noisy"]:
                         keys = [kk for kk in keys if kk[2] is False]
                     for _ in range(4):  # several samples: with an empty map every sample must be the noise-free circuit
+                        # one_run() initialises the sampler's counters. Its score is NOT judged: it compares two states
+                        # after tracing out emitters, which measures entangled emitters with random outcomes
+                        mc.one_run()
                         c2 = mc.assign_noise()
                         f2 = fp_circuit(c2)
                         d = diff_fp(before[0][ci], f2, keys)
